@@ -357,7 +357,7 @@ func (w *World) checkConfirmations(n *Node, prev, cur *Snap, op OpInfo) {
 			}
 			w.Violate("C01", sig, fmt.Sprintf("node %s: vertex %s (%s -> %s, %s, sealed by %s) became confirmed although in its own history the issuer received %s and spent %s before it (short by %s)",
 				n.Name, Hex(h), w.NameOf(v.Transaction.IssuerAddress), w.NameOf(v.Transaction.ReceiverAddress), MelStr(v.Transaction.Spice), w.NameOf(v.SignerPublicAddress),
-				ev.In, ev.Out, new(big.Int).Sub(new(big.Int).Add(ev.Out, ev.Amount), ev.In)))
+				ev.In, ev.Out, new(big.Int).Sub(new(big.Int).Add(ev.Out, ev.Amount), ev.In))+w.checkpointNote(cur, v.Transaction.IssuerAddress))
 		}
 	}
 	// dropped tips: a vertex that left the live DAG without being checkpointed must have been a tip and must take its index entry with it
@@ -396,6 +396,24 @@ func amountClass(c, s uint64) string {
 		}
 	}
 	return cl(c, false) + cl(s, true)
+}
+
+// checkpointNote renders, for a violation report, what the node's checkpoint holds for the address next to the net
+// flow of the checkpointed vertices.
+func (w *World) checkpointNote(cur *Snap, addr string) string {
+	if len(cur.Stored) == 0 {
+		return ""
+	}
+	in, out := Flows(addr, func(yield func(*accountant.Vertex)) {
+		for _, sv := range cur.Stored {
+			yield(sv)
+		}
+	})
+	have := new(big.Int)
+	if m, ok := cur.Funds[addr]; ok {
+		have = Val(m)
+	}
+	return fmt.Sprintf("; checkpoint: %d vertices, funds held for the issuer %s, net flow of the checkpointed vertices %s", len(cur.Stored), have, new(big.Int).Sub(in, out))
 }
 
 func (w *World) evalConfirm(n *Node, cur *Snap, v *accountant.Vertex, op OpInfo) *ConfEval {
@@ -445,6 +463,11 @@ func (w *World) evalConfirm(n *Node, cur *Snap, v *accountant.Vertex, op OpInfo)
 			}
 		})
 		ev.CheckpointOverdrawn = cin.Cmp(cout) < 0 && issuer != w.GenIss
+	}
+	if n.Tainted[issuer] {
+		// overdrawn at an earlier truncation (the clamp raised its funds then), even if later checkpointed inflow
+		// made the cumulative net flow positive again
+		ev.CheckpointOverdrawn = true
 	}
 	ev.In, ev.Out, ev.Amount = in, out, Val(v.Transaction.Spice)
 	need := new(big.Int).Add(out, ev.Amount)
